@@ -102,7 +102,7 @@ class RefMempool:
 
 class ClientDriver(ReorgDriver):
     FAMILY_PROP = dict(ReorgDriver.FAMILY_PROP, subs='C07', mempool='C08', stale='C10', proofs='C11',
-                       hostile='C16', limits='C17')
+                       hostile='C16', limits='C17', peers='C19')
 
     def setup(self):
         super().setup()
@@ -896,6 +896,9 @@ class StaleFamily(SubsFamily):
     def gen(self, rng, tier, prop):
         k, plan = self.base(rng, tier)
         k['stall_p'] = rng.choice([0.0, 0.01, 0.05, 0.2])     # reads parked across a reorg
+        if rng.random() < 0.5:
+            k['stall_boost'] = (rng.choice(['fs_tx_hashes_at_blockheight', 'read_history', 'read_headers',
+                                            'read_utxos', 'lookup_hashXs', 'lookup_utxos']), 0.5)
         nclients = rng.randint(1, 2)
         for c in range(nclients):
             plan.append(dict(op='c_connect', c=c))
@@ -915,6 +918,20 @@ class StaleFamily(SubsFamily):
                 ops.append(q)
             rng.shuffle(ops)
             plan.extend(ops)
+            if rng.random() < 0.35:
+                # motif: fresh blocks (not yet in any cache), a by-height request for one of them that may
+                # be parked on a slow disk, and a fork replacing those blocks right afterwards
+                n = rng.randint(1, 2)
+                tq = round(rng.uniform(5.5, 11.0), 2)
+                plan.append(dict(op='mine', n=n, ntx=ntx_list(rng, n), seed=rng.getrandbits(32)))
+                for _ in range(rng.randint(1, 3)):
+                    plan.append(dict(op='c_query', c=rng.randrange(nclients),
+                                     m=rng.choice(['id_from_pos', 'get_merkle', 'id_from_pos']),
+                                     back=rng.randrange(n), h=0, pos=rng.randrange(4),
+                                     merkle=rng.random() < 0.5, at=tq))
+                plan.append(dict(op='fork', depth=rng.choice([n, n, n + 1]), extra=1, ntx=ntx_list(rng, 3),
+                                 remine=rng.choice([0.0, 0.5]), at=round(tq + rng.uniform(0.0, 3.0), 2),
+                                 seed=rng.getrandbits(32)))
             plan.append(dict(op='settle'))
         return dict(family=self.fam, knobs=k, plan=plan)
 
